@@ -810,7 +810,7 @@ def run(ctx):
 
     # ---- seeded generation: in blocks with their own random stream, a worker only
     # generates the blocks it owns ------------------------------------------------
-    scale = ctx.pick(1, 20)
+    scale = ctx.pick(1, 100)
     blk = 0
 
     def blocks(stream, total, size=250):
